@@ -485,12 +485,15 @@ CK_RV Token::getTokenInfo(CK_TOKEN_INFO_PTR info)
 
 		if (token->getTokenLabel(label))
 		{
-			strncpy((char*) info->label, (char*) label.byte_str(), label.size());
+			// The stored label may be longer than the field (damaged token file)
+			size_t labelLen = label.size() < sizeof(info->label) ? label.size() : sizeof(info->label);
+			strncpy((char*) info->label, (char*) label.byte_str(), labelLen);
 		}
 
 		if (token->getTokenSerial(serial))
 		{
-			strncpy((char*) info->serialNumber, (char*) serial.byte_str(), serial.size());
+			size_t serialLen = serial.size() < sizeof(info->serialNumber) ? serial.size() : sizeof(info->serialNumber);
+			strncpy((char*) info->serialNumber, (char*) serial.byte_str(), serialLen);
 		}
 	}
 	else
